@@ -67,6 +67,8 @@ _add("SmVerif.Tie.Builder", "RsBuilder", [_T + n for n in
     "tie_add_source_with_id tie_add_source tie_add_name tie_add_with_id tie_add tie_add_raw tie_set_source tie_set_source_contents tie_get_source tie_get_source_contents tie_has_source_contents tie_take_mapping tie_step tie_run_along tie_run tie_run_error tie_run_gen add_source_with_id_truncation gen_c13_abs_add_source gen_c13_abs_add_name gen_c13_inv_reachable gen_c13_builder_refines gen_c13_token_resolves".split()])
 _add("SmVerif.Tie.JsIdent", "RsJsIdent", [_T + "JsIdent." + n for n in
     "tie_is_valid_start tie_is_valid_continue str_is_enc tie_chars_enc tie_char_indices tie_str_slice_prefix tie_strip_identifier strip_identifier_total tie_is_valid_javascript_identifier tie_first_word tie_get_javascript_token tie_strip_identifier_str tie_is_valid_javascript_identifier_str tie_get_javascript_token_str js_identifiers_total gen_c17_identifier_chars gen_is_valid_javascript_identifier gen_c17_not_identifier_none gen_c17_identifier_text".split()])
+_add("SmVerif.Tie.Reader", "RsReader", [_T + n for n in
+    "tie_reader_is_junk_json tie_loop2 tie_loop2_chunk tie_loop1 tie_strip_head_read strip_head_read_zero tie_reader_read tie_reader_read_ok tie_reader_read_error tie_consume tie_reader_output gen_c12_chunking_irrelevant gen_c12_no_false_eof gen_c12_reader_eq_slice".split()])
 # property theorems restated about the generated code (compositions property o tie)
 _P = "SmVerif.Tie.Props."
 _add("SmVerif.Tie.Props", "RsVlq", [_P + n for n in [
@@ -86,11 +88,11 @@ PROP_MODULES = {
     "C02": ["SmVerif.Tie.Vlq", "SmVerif.Tie.Decode", "SmVerif.Tie.Props", "SmVerif.Tie.Prefix"],
     "C03": ["SmVerif.Tie.Vlq", "SmVerif.Tie.Serialize"],
     "C04": ["SmVerif.Tie.Lookup", "SmVerif.Tie.Props"],
-    "C05": ["SmVerif.Tie.Vlq", "SmVerif.Tie.Header", "SmVerif.Tie.Decode", "SmVerif.Tie.Lookup", "SmVerif.Tie.Hermes", "SmVerif.Tie.Serialize", "SmVerif.Tie.Props", "SmVerif.Tie.SourceView", "SmVerif.Tie.Detect", "SmVerif.Tie.RamBundle", "SmVerif.Tie.JsIdent"],
+    "C05": ["SmVerif.Tie.Vlq", "SmVerif.Tie.Header", "SmVerif.Tie.Decode", "SmVerif.Tie.Lookup", "SmVerif.Tie.Hermes", "SmVerif.Tie.Serialize", "SmVerif.Tie.Props", "SmVerif.Tie.SourceView", "SmVerif.Tie.Detect", "SmVerif.Tie.RamBundle", "SmVerif.Tie.JsIdent", "SmVerif.Tie.Reader"],
     "C06": ["SmVerif.Tie.Vlq", "SmVerif.Tie.Decode", "SmVerif.Tie.Props"],
     "C07": ["SmVerif.Tie.Vlq", "SmVerif.Tie.Small", "SmVerif.Tie.Decode", "SmVerif.Tie.Lookup", "SmVerif.Tie.Serialize", "SmVerif.Tie.Props"],
     "C11": ["SmVerif.Tie.Vlq", "SmVerif.Tie.Props"],
-    "C12": ["SmVerif.Tie.Header", "SmVerif.Tie.Props2"],
+    "C12": ["SmVerif.Tie.Header", "SmVerif.Tie.Props2", "SmVerif.Tie.Reader"],
     "C08": ["SmVerif.Tie.Builder"],
     "C09": ["SmVerif.Tie.Builder"],
     "C13": ["SmVerif.Tie.Prefix", "SmVerif.Tie.Builder"],
